@@ -33,7 +33,7 @@ func init() {
 func c02Docs() []*world.Doc {
 	all := world.BaseDocs()
 	// the common feature set: objects, lists, scalars, enums, aliases, fragments on the concrete type, variables, string/boolean arguments
-	return []*world.Doc{all[0], all[1], all[2], all[3], all[5], all[7], all[8], all[9], all[11], all[12], all[13]}
+	return []*world.Doc{all[0], all[1], all[2], all[3], all[5], all[7], all[8], all[9], all[11], all[12], all[13], all[14]}
 }
 
 // c02MixDocs: the documents for mixed graphs and precedence probes (the value-typed V objects keep one carrier, a Go struct
@@ -102,6 +102,15 @@ func runC02(c *core.Ctx) {
 						for _, fk := range []world.FaultKind{world.FaultErr, world.FaultValErr} {
 							plans = append(plans, []string{ck})
 							planKinds = append(planKinds, fk)
+						}
+					}
+					// every pair of failing calls (two elements of one list failing, a parent and a child, ...)
+					if calls := expectedCalls(s, gfs, ex0, world.FS); len(calls) <= 12 {
+						for i := range calls {
+							for j := i + 1; j < len(calls); j++ {
+								plans = append(plans, []string{calls[i], calls[j]})
+								planKinds = append(planKinds, world.FaultErr)
+							}
 						}
 					}
 				}
@@ -299,7 +308,7 @@ func runC02(c *core.Ctx) {
 		// ---- Part D: binding probes
 		runC02Bindings(c, s, graphs[0], report)
 	}
-	c.R.Bound = fmt.Sprintf("A: documents within %d mutations x single faults; B: all 2^%d assignments x 2 modes; C: 3 probes; D: all 6 argument orders", k, len(nodes)-1)
+	c.R.Bound = fmt.Sprintf("A: documents within %d mutations x single faults and all pairs of faults (call logs <= 12); B: all 2^%d assignments x 2 modes; C: 3 probes; D: all 6 argument orders", k, len(nodes)-1)
 	if !completed {
 		c.Cap("deadline reached")
 	}
